@@ -431,5 +431,60 @@ def run(prog: Program, L: Ledger) -> None:
     # the kinetic energy K0 the Hamiltonian formula reads must be that of the momenta the trajectory started from
     from . import c14
 
+    check_reference_energy(prog, L)
     L.rule("H", "context.last_kinetic_energy, read by the Hamiltonian criterion as the initial kinetic energy, is on every abstract path that of the momenta present when the integrator starts")
     c14.check_kinetic_reference(prog, L, "H")
+
+
+# ---------------------------------------------------------------------------------------------- rule E (abstract heap)
+def check_trial(prog: Program, sc, rec) -> list[dict]:
+    """Called by qsa.scenarios.run_all for every completed abstract trial: the energy E_old that the acceptance formula
+    reads (context.last_potential_energy) is the energy of the configuration the trial started from."""
+    from ..absim import V, simp
+
+    if "last_potential_energy" not in rec.ctx_before:
+        return []
+    v = rec.ctx_before["last_potential_energy"]
+    b = (simp(rec.before["P"]), simp(rec.before["C"]), simp(rec.before["A"]))
+    scen = f"{rec.driver}×{rec.move_cls}"
+    out = []
+
+    def bad(which, key, val):
+        out.append({"status": "violation", "rule": "E", "construct": f"{rec.driver}:reference-energy[{key}]", "where": "",
+                    "detail": f"at the start of {which} under {rec.driver} the reference energy E_old is {str(val)[:90]}, not the energy of the configuration the trial starts from: "
+                              "ΔE in the acceptance ratio is not E_new − E_old of this trial (with NaN every comparison is False and min(0, nan) is 0 — the trial is accepted or rejected unconditionally)",
+                    "witness": f"scenario {scen}; abstract path: " + " ; ".join(list(rec.path)[-6:]), "stmt": f"reference-energy-{key}"})
+
+    if rec.index == 0:
+        if isinstance(v, V) and v.term and v.term[0] == "E" and v.term[1] == b:
+            out.append({"status": "ok", "rule": "E", "construct": f"{scen}:first-trial:reference-energy"})
+        else:
+            bad(f"the first trial (after validate_simulation) of {rec.move_cls}", "first", v)
+    # what the NEXT trial will read: after this one completed (accepted, rejected or failed) the slot holds the energy
+    # of the configuration the atoms are left in
+    if rec.outcome in ("accepted", "rejected", "failed") and "last_potential_energy" in rec.ctx_after:
+        va = rec.ctx_after["last_potential_energy"]
+        a = (simp(rec.after["P"]), simp(rec.after["C"]), simp(rec.after["A"]))
+        if isinstance(va, V) and va.term and va.term[0] == "E" and va.term[1] == a:
+            out.append({"status": "ok", "rule": "E", "construct": f"{scen}:after-{rec.outcome}:reference-energy"})
+        else:
+            bad(f"the trial that follows a {rec.outcome} trial of {rec.move_cls}", f"after-{rec.outcome}", va)
+    return out
+
+
+def check_reference_energy(prog: Program, L: Ledger) -> None:
+    from ..scenarios import run_all, scenarios
+
+    L.rule("E", "on every abstract path, at the start of the first trial and after every completed trial, context.last_potential_energy (E_old of the formula) is the energy of the configuration the trial starts from")
+    scs = scenarios(prog, with_composites=False, iterations=1)
+    L.floor("driver × move scenarios for the reference energy", len(scs), 8)
+    n = 0
+    for label, stats, findings, oks, err in run_all(prog, "qsa.props.c02", scs):
+        if err:
+            raise AnalysisError(f"scenario {label}: {err}")
+        n += stats["trials"]
+        for rule, construct, k in oks:
+            L.ok(rule, construct, "", f"{k} trials")
+        for f in findings:
+            L.violation(f["rule"], f["construct"], f["where"], f["detail"], f["witness"], f.get("stmt", ""))
+    L.floor("abstract trials checked for the reference energy", n, 100)
